@@ -20,15 +20,34 @@
         final(self).path == old(self).path,
 //@ entry
     proof { lemma_point_states(); }
+//@ fn StoredPoint::is_new
+//@ spec
+    ensures res == self.is_new,
+//@ fn StoredPoint::manifest
+//@ spec
+    ensures match res { Some(m) => self.manifest == Some(*m), None => self.manifest is None },
+//@ fn StoredPoint::load_quietly
+//@ spec
+    ensures
+        // C23: the quiet loader (used by cleanup) never invents data: a manifest is reported
+        // only for a completely stored point, and it is that point's manifest
+        res matches Some(p) ==> forall|h: StoredPointHeader, m: StoredManifest, objs: Seq<StoredObject>|
+            disk(path.p) == Some(#[trigger] enc_point(h, m, objs)) && h.update_status is Success ==>
+                same_stored_header(p.header, h) && (p.manifest matches Some(pm) && enc_manifest(pm) == enc_manifest(m)),
+        res matches Some(p) ==> (!is_complete(disk(path.p)) ==> p.manifest is None && p.header.update_status is LastAttempt),
+//@ entry
+    proof { lemma_point_states(); axiom_codec(); lemma_open(); }
 //@ fn StoredPoint::open
 //@ spec
     ensures
         // C23: whatever state a kill left the point file in, the next run can open the point
         !io_failure() ==> res is Ok,
-        // C23: a completely stored version is seen as exactly that version, positioned at its objects
+        // C23: a completely stored version is seen as exactly that version (same bytes: times at
+        // the stored one-second resolution), positioned at its objects
         res matches Ok(p) ==> forall|h: StoredPointHeader, m: StoredManifest, objs: Seq<StoredObject>|
             disk(path.p) == Some(#[trigger] enc_point(h, m, objs)) && h.update_status is Success ==>
-                p.header == h && p.manifest == Some(m) && !p.is_new
+                same_stored_header(p.header, h) && !p.is_new
+                && (p.manifest matches Some(pm) && enc_manifest(pm) == enc_manifest(m))
                 && (p.file matches Some(f) && f.remaining() == enc_objects(objs)),
         // C23: anything else (no file, an empty or partially written never-succeeded header) is
         // seen as a point without stored data
@@ -53,13 +72,22 @@ spec fn enc_point(h: StoredPointHeader, m: StoredManifest, objs: Seq<StoredObjec
     enc_header(h) + enc_manifest(m) + enc_objects(objs)
 }
 // Header and manifest encodings are self-delimiting (length-prefixed fields) and not empty.
+// They do NOT determine the value completely: times are stored at one-second resolution while
+// Time (Time::now()) has sub-second precision. Two headers with the same bytes agree on the
+// URIs and on the kind of update status (proved in unit store_header: lemma_header_codec).
+spec fn same_stored_header(a: StoredPointHeader, b: StoredPointHeader) -> bool {
+    &&& enc_header(a) == enc_header(b)
+    &&& a.manifest_uri == b.manifest_uri
+    &&& a.rpki_notify == b.rpki_notify
+    &&& (a.update_status is Success <==> b.update_status is Success)
+}
 #[verifier::external_body]
 proof fn axiom_codec()
     ensures
         forall|a: StoredPointHeader, x: Seq<u8>, b: StoredPointHeader, y: Seq<u8>|
-            #[trigger] (enc_header(a) + x) == #[trigger] (enc_header(b) + y) ==> a == b && x == y,
+            #[trigger] (enc_header(a) + x) == #[trigger] (enc_header(b) + y) ==> same_stored_header(a, b) && x == y,
         forall|a: StoredManifest, x: Seq<u8>, b: StoredManifest, y: Seq<u8>|
-            #[trigger] (enc_manifest(a) + x) == #[trigger] (enc_manifest(b) + y) ==> a == b && x == y,
+            #[trigger] (enc_manifest(a) + x) == #[trigger] (enc_manifest(b) + y) ==> enc_manifest(a) == enc_manifest(b) && x == y,
         forall|h: StoredPointHeader| (#[trigger] enc_header(h)).len() > 0,
 { unimplemented!() }
 
@@ -110,6 +138,12 @@ impl File {
             r matches Ok(f) ==> disk(path.p) == Some(f.content()) && point_state(f.content()),
             r matches Err(e) ==> (e.kind_spec() == ErrorKind::NotFound ==> disk(path.p) is None),
             r matches Err(e) ==> (e.kind_spec() != ErrorKind::NotFound ==> io_failure()),
+    { unimplemented!() }
+    #[verifier::external_body]
+    fn sync_all(&self) -> (r: Result<(), IoError>) { unimplemented!() }
+    #[verifier::external_body]
+    fn set_len(&mut self, size: u64) -> (r: Result<(), IoError>)
+        requires forall|n: int| 0 <= n <= old(self).content().len() ==> point_state(#[trigger] old(self).content().subrange(0, n)),
     { unimplemented!() }
     // Create-or-truncate: ONE CRASH STEP, after which the file is empty.
     #[verifier::external_body]
@@ -164,11 +198,11 @@ proof fn lemma_open()
         // reading a header off a complete point yields that header and leaves manifest + objects
         forall|h: StoredPointHeader, m: StoredManifest, objs: Seq<StoredObject>, h1: StoredPointHeader, r: Seq<u8>|
             #[trigger] enc_point(h, m, objs) == #[trigger] (enc_header(h1) + r)
-                ==> h == h1 && r == enc_manifest(m) + enc_objects(objs),
+                ==> same_stored_header(h, h1) && r == enc_manifest(m) + enc_objects(objs),
         // a prefix of a header that starts with a complete header is that header
         forall|h: StoredPointHeader, n: int, h1: StoredPointHeader, r: Seq<u8>|
             0 <= n <= enc_header(h).len() && #[trigger] enc_header(h).subrange(0, n) == #[trigger] (enc_header(h1) + r)
-                ==> h == h1,
+                ==> same_stored_header(h, h1),
         // nothing that starts with a complete header is empty
         forall|h1: StoredPointHeader, r: Seq<u8>| (#[trigger] (enc_header(h1) + r)).len() > 0,
 {
@@ -180,12 +214,12 @@ proof fn lemma_open()
     }
     assert forall|h: StoredPointHeader, m: StoredManifest, objs: Seq<StoredObject>, h1: StoredPointHeader, r: Seq<u8>|
             #[trigger] enc_point(h, m, objs) == #[trigger] (enc_header(h1) + r)
-                implies h == h1 && r == enc_manifest(m) + enc_objects(objs) by {
+                implies same_stored_header(h, h1) && r == enc_manifest(m) + enc_objects(objs) by {
         assert(enc_point(h, m, objs) == enc_header(h) + (enc_manifest(m) + enc_objects(objs)));
     }
     assert forall|h: StoredPointHeader, n: int, h1: StoredPointHeader, r: Seq<u8>|
             0 <= n <= enc_header(h).len() && #[trigger] enc_header(h).subrange(0, n) == #[trigger] (enc_header(h1) + r)
-                implies h == h1 by {
+                implies same_stored_header(h, h1) by {
         let suffix = enc_header(h).subrange(n, enc_header(h).len() as int);
         assert(enc_header(h) + Seq::<u8>::empty() =~= enc_header(h1) + (r + suffix)) by {
             assert(enc_header(h) =~= enc_header(h).subrange(0, n) + suffix);
